@@ -77,6 +77,8 @@ def ends : Req → Scope → Bool
   | .ident, _ => true
   | .disconnect, _ => true
   | .activate _, _ => false
+  | .rw _ _ _ _, _ => false          -- a `read` / `change` request ends nothing
+  | .malformed _ _, _ => false       -- nor does a request that is refused as malformed (e.g. `deactivate` with data)
 
 /-- does a reply to request `r` mark the end of what `r` ends: a positive reply does; for `*IDN?` and a disconnect
 any outcome does (the statement says "after an identification request, or a disconnect" — also when the
@@ -205,6 +207,12 @@ def emitOpen (tr : List Obs) : Nat → Bool := tr.foldl emitOpenNext (fun _ => f
 /-- nothing is in progress: every request has been answered, every assignment has returned -/
 def Quiet (tr : List Obs) : Prop := (∀ c, reqOpen tr c = false) ∧ (∀ u, emitOpen tr u = false)
 
+/-- the clause with the node's cache given directly (`now`: what the node holds for every parameter at the end of `tr`, value or
+error class AND time stamp) -/
+def QuiescentLastEq (cfg : Cfg) (now : Mod → Par → Entry) (tr : List Obs) : Prop :=
+  Quiet tr → ∀ c ∈ cfg.conns, ∀ m ∈ cfg.mods, ∀ p ∈ cfg.pars m,
+    coveredBy (firmAfter tr c) m p = true → lastDelivered tr c m p = some (now m p)
+
 def QuiescentLastEqCache (cfg : Cfg) (cache : Mod → Par → Entry) (tr : List Obs) : Prop :=
   Quiet tr → ∀ c ∈ cfg.conns, ∀ m ∈ cfg.mods, ∀ p ∈ cfg.pars m,
     coveredBy (firmAfter tr c) m p = true → lastDelivered tr c m p = some (cacheAfter cache tr m p)
@@ -225,12 +233,15 @@ def quietB (tr : List Obs) : Bool :=
   (tr.filterMap obsConn).all (fun c => !reqOpen tr c) && (tr.filterMap obsUpd).all (fun u => !emitOpen tr u)
 
 /-- monitor for `QuiescentLastEqCache`: the first `(c, m, p)` whose last message differs from the cache -/
-def quiescentBad (cfg : Cfg) (cache : Mod → Par → Entry) (tr : List Obs) : Option (Conn × Mod × Par) :=
+def quiescentBadNow (cfg : Cfg) (now : Mod → Par → Entry) (tr : List Obs) : Option (Conn × Mod × Par) :=
   if quietB tr then
     (cfg.conns.flatMap (fun c => cfg.mods.flatMap (fun m => (cfg.pars m).map (fun p => (c, m, p))))).find?
       (fun x => coveredBy (firmAfter tr x.1) x.2.1 x.2.2 &&
-        !(lastDelivered tr x.1 x.2.1 x.2.2 == some (cacheAfter cache tr x.2.1 x.2.2)))
+        !(lastDelivered tr x.1 x.2.1 x.2.2 == some (now x.2.1 x.2.2)))
   else none
+
+def quiescentBad (cfg : Cfg) (cache : Mod → Par → Entry) (tr : List Obs) : Option (Conn × Mod × Par) :=
+  quiescentBadNow cfg (cacheAfter cache tr) tr
 
 /-! ## OthersUnaffected (a statement about single actions) -/
 
